@@ -11,6 +11,7 @@ package fasthttp
 //      construction (and cross-checked against net/http once per message);
 //   2. byte mutations of the repository's fuzz seeds (+ a few canonical messages), judged by weaker invariants
 //      (self-consistency of the consumed region with the returned body, and net/http's message end when both accept);
+//   2c. size numbers (chunk-size, Content-Length) of every digit count up to past the width of int;
 //   3. all strings up to a length over an adversarial alphabet for the value parsers.
 
 import (
@@ -222,7 +223,7 @@ type c08Msg struct {
 	Buf      int    `json:"bufio_size"`
 	Chunking int    `json:"chunking"` // 0 whole, 1 one byte per read, 2 seven bytes per read, 3/4/5 a read boundary at msg_len / -1 / +1
 	Under    bool   `json:"under_read_allowed,omitempty"`
-	Via      string `json:"via,omitempty"` // grammar | mutation | trailer-sweep
+	Via      string `json:"via,omitempty"` // grammar | mutation | trailer-sweep | size-sweep
 	Entry    string `json:"entry,omitempty"` // "" = ReadLimitBody; stream = streamed body read to EOF; trailer = header.ReadTrailer on the bare trailer section
 	input    []byte
 }
@@ -256,8 +257,17 @@ func c08MakeSrc(input []byte, chunking, msgLen int) *c08Src {
 // c08Chunked reports whether input[p:end] is a chunked body that decodes to body, leniently: any bytes may follow the
 // hex size up to LF; CRLF or LF after chunk data; after the last chunk anything that ends in an empty line.
 func c08Chunked(input []byte, p, end int, body []byte) bool {
+	return c08ChunkedX(input, p, end, body, false)
+}
+
+// c08ChunkedX with cut = true accepts instead exactly the chunked encodings of body that stop at end right after a
+// complete chunk (data + line end) without a last-chunk: an input that ended between two chunks.
+func c08ChunkedX(input []byte, p, end int, body []byte, cut bool) bool {
 	bi := 0
 	for {
+		if cut && p == end && bi == len(body) && bi > 0 {
+			return true
+		}
 		n, digits := 0, 0
 		for p < end {
 			c := input[p]
@@ -293,7 +303,7 @@ func c08Chunked(input []byte, p, end int, body []byte) bool {
 		}
 		p++ // LF
 		if n == 0 {
-			if bi != len(body) {
+			if bi != len(body) || cut {
 				return false
 			}
 			rest := input[p:end]
@@ -328,6 +338,16 @@ func c08Consistent(input []byte, consumed int, body []byte) bool {
 	}
 	for p := 1; p < consumed; p++ {
 		if input[p-1] == '\n' && c08Chunked(input, p, consumed, body) {
+			return true
+		}
+	}
+	return false
+}
+
+// c08CutBetweenChunks: the whole input is a head followed by complete chunks that decode to body, and nothing else.
+func c08CutBetweenChunks(input []byte, body []byte) bool {
+	for p := 1; p < len(input); p++ {
+		if input[p-1] == '\n' && c08ChunkedX(input, p, len(input), body, true) {
 			return true
 		}
 	}
@@ -519,6 +539,14 @@ func c08RunMsg(p *c08Pool, s *c08Slot, m *c08Msg, nh *c08NetHTTP) {
 			if he := c08HeadEnd(m.input); he >= 0 && consumed > he+formCL {
 				r.Violation(parser+"-over-read-multipart-preparse", fmt.Sprintf("%s consumed %d bytes, head ends at %d and Content-Length is %d: %s", parser, consumed, he, formCL, m.str()), m.art())
 			}
+			return
+		}
+		if streamed && consumed == len(m.input) && c08CutBetweenChunks(m.input, body) {
+			// The input ended exactly between two chunks and the body stream reported io.EOF (which io.ReadAll takes for
+			// the end of the body). Whether a cut-off chunked body must be told apart from a complete one is a framing
+			// question (the buffered readers return an error here), not one of panics, termination or over-reading:
+			// nothing was consumed that is not there. Counted, not judged.
+			p.add(m.Kind+"_stream_input_ended_between_chunks_read_as_EOF(not_judged)", 1)
 			return
 		}
 		if !c08Consistent(m.input, consumed, body) {
@@ -950,6 +978,82 @@ func c08TrailerSweep() []*c08Msg {
 	return out
 }
 
+// c08SizeSweep: the number dimension of the two size fields that decide how many bytes a body read takes off the
+// connection — the hexadecimal chunk-size and the decimal Content-Length. Every token of 1..18 hex (1..21 decimal)
+// digits built as <lead digit><fill digit>*<last digit> with lead/fill/last from the extreme digits, which contains
+// 2^k-1, 2^k, 2^k+1 shapes around every power of 16 (10), in particular MaxInt32/MaxInt64/MaxUint64 +-1 and the first
+// values that no longer fit, plus the zero-padded spelling of the real data length at every digit count. Chunk sizes
+// are placed as the first chunk, after an ordinary chunk and after a chunk whose data ends in CRLF. The token whose
+// value equals the data length gives a well-formed message with a known end; all others are judged by the weak
+// invariants (they must be rejected or be consistent), and none may panic or hang.
+func c08SizeSweep() (out []*c08Msg, nHex, nDec int) {
+	const data = "xy"
+	gen := func(maxDigits int, leads, fills, lasts string, extra []string) []string {
+		set := map[string]bool{}
+		for d := 1; d <= maxDigits; d++ {
+			for _, l := range leads {
+				if d == 1 {
+					set[string(l)] = true
+					continue
+				}
+				for _, f := range fills {
+					for _, z := range lasts {
+						set[string(l)+strings.Repeat(string(f), d-2)+string(z)] = true
+					}
+				}
+			}
+			set[strings.Repeat("0", d-1)+strconv.Itoa(len(data))] = true // zero-padded real length (len(data) < 10)
+		}
+		for _, e := range extra {
+			set[e] = true
+		}
+		var toks []string
+		for t := range set {
+			toks = append(toks, t)
+		}
+		sort.Strings(toks)
+		return toks
+	}
+	hexToks := gen(18, "0178f", "0f", "01ef", []string{"7FFFFFFFFFFFFFFF", "FFFFFFFFFFFFFFFF", "7FFFFFFF", "FFFFFFFF"})
+	decToks := gen(21, "0129", "09", "0789", []string{
+		"2147483646", "2147483647", "2147483648", "4294967295", "4294967296",
+		"9223372036854775806", "9223372036854775807", "9223372036854775808", "9223372036854775809",
+		"18446744073709551614", "18446744073709551615", "18446744073709551616", "18446744073709551617"})
+	nHex, nDec = len(hexToks), len(decToks)
+	exact := func(tok string) bool { return strings.TrimLeft(tok, "0") == strconv.Itoa(len(data)) }
+	heads := map[string]string{"request": "POST /p HTTP/1.1\r\nHost: h\r\n", "response": "HTTP/1.1 200 OK\r\n"}
+	tails := []string{"", "GET /next HTTP/1.1\r\nHost: n\r\n\r\n"}
+	emit := func(kind, msg string, wf bool) {
+		for _, entry := range []string{"", "stream"} {
+			for _, tail := range tails {
+				input := []byte(msg + tail)
+				ml := -1
+				if wf {
+					ml = len(msg)
+				}
+				for _, mb := range []int{1, 7, 4096, 1 << 16} {
+					for _, bs := range []int{64, 128, 4096} {
+						for _, ch := range []int{0, 1} {
+							out = append(out, &c08Msg{Kind: kind, input: input, MsgLen: ml, WF: wf, MaxBody: mb, Buf: bs, Chunking: ch, Via: "size-sweep", Entry: entry})
+						}
+					}
+				}
+			}
+		}
+	}
+	for _, kind := range []string{"request", "response"} {
+		for _, tok := range hexToks {
+			for _, prefix := range []string{"", "3\r\nabc\r\n", "2\r\n\r\n\r\n"} {
+				emit(kind, heads[kind]+"Transfer-Encoding: chunked\r\n\r\n"+prefix+tok+"\r\n"+data+"\r\n0\r\n\r\n", exact(tok))
+			}
+		}
+		for _, tok := range decToks {
+			emit(kind, heads[kind]+"Content-Length: "+tok+"\r\n\r\n"+data, exact(tok))
+		}
+	}
+	return out, nHex, nDec
+}
+
 // ---------------------------------------------------------------------------------------------------------------
 // seeds for the mutation enumeration
 
@@ -1118,6 +1222,7 @@ func TestVerif_C08(t *testing.T) {
 		"(whole, 1 and 7 bytes per read, a read boundary at / before / after the message end), through Request.ReadLimitBody and Response.ReadLimitBody; "+
 		"(2) every <= %d-byte substitution with one of 16 interesting bytes in the repository's fuzz seeds (fuzz_test.go) and 4 canonical messages, x maxBodySize {seed's,1,7,4096} x bufio {16,64,4096} x {whole, 1 byte per read} (2-byte substitutions: seed's maxBodySize, 4096, whole); "+
 		"(2b) chunked requests / responses and bare trailer sections whose trailer section is size-3..size+5 and 2*size bytes for every bufio size {16,64,4096} (one long field / two fields / folded field), read buffered (ReadLimitBody), streamed (ContinueReadBodyStream resp. StreamBody, body stream read to EOF) and through ReadTrailer directly, x bufio size x {no tail, next message} x 4 input chunkings; "+
+		"(2c) chunked and Content-Length requests / responses whose size number (hex chunk-size as first chunk / after an ordinary chunk / after a chunk whose data ends in CRLF; decimal Content-Length) is every token <lead><fill>*<last> of 1..18 hex digits (lead 0,1,7,8,f; fill 0,f; last 0,1,e,f) resp. 1..21 decimal digits (lead 0,1,2,9; fill 0,9; last 0,7,8,9), i.e. the values around every power of 16 / 10 up to past 2^64 including MaxInt32/MaxInt64/MaxUint64 -1/+0/+1 and the first digit counts the platform int cannot hold, plus the zero-padded real data length at every digit count (a well-formed message with a known end), read buffered and streamed, x {no tail, next message} x maxBodySize {1,7,4096,65536} x bufio {64,128,4096} x {whole, 1 byte per read}; "+
 		"(3) all strings of <= %d symbols over a 9-symbol alphabet for Cookie.ParseBytes, URI.Parse, Args.ParseBytes, ParseByteRange, VisitHeaderParams, RequestHeader.MultipartFormBoundary and multipart form parsing. "+
 		"Oracle: no panic (recovered per case), every call returns (watchdog, 60 s per case), a returned body never exceeds maxBodySize, and after a successful read of a well-formed generated message the number of consumed bytes "+
 		"(input - bufio.Buffered - unread source) equals the message length known by construction (cross-checked against net/http per message); for lenient / mutated inputs the consumed region must end where a message with the returned body can end "+
@@ -1260,6 +1365,24 @@ func TestVerif_C08(t *testing.T) {
 		}
 	})
 	r.Set("wall_s_trailer_sweep", time.Since(t0).Seconds())
+	t0 = time.Now()
+
+	// ---- (2c) size numbers (chunk-size, Content-Length) at every digit count up to past the int width
+	sizes, nHex, nDec := c08SizeSweep()
+	r.Set("size_sweep_cases", len(sizes))
+	r.Set("size_sweep_hex_tokens", nHex)
+	r.Set("size_sweep_decimal_tokens", nDec)
+	p.par(len(sizes), func(s *c08Slot, i int) {
+		if stopped.Load() {
+			return
+		}
+		c08RunMsg(p, s, sizes[i], nil)
+		r.Eval(1)
+		if i%49999 == 0 {
+			r.Sample(map[string]any{"enumeration": "size-sweep", "kind": sizes[i].Kind, "entry": sizes[i].Entry, "input": vrt.Q(c08Clip2(sizes[i].input)), "max_body": sizes[i].MaxBody, "bufio_size": sizes[i].Buf})
+		}
+	})
+	r.Set("wall_s_size_sweep", time.Since(t0).Seconds())
 	t0 = time.Now()
 
 	// ---- (3) value parsers
